@@ -71,7 +71,8 @@ type ORes struct {
 }
 
 // JV: a JSON value with ordered (possibly repeated) object keys.
-// T: s string, i integer (I decimal text, any size), f the float 1.5, b bool, z null, o object, a array
+// T: s string, i integer (I decimal text, any size), f the float 1.5, n another number that is not an integer literal (S its
+// text: exponent / fraction forms), b bool, z null, o object, a array
 type JV struct {
 	T string `json:"t"`
 	S string `json:"s,omitempty"`
@@ -315,6 +316,8 @@ func render(v JV, sb *strings.Builder, sp string) {
 		sb.WriteString(v.I)
 	case "f":
 		sb.WriteString("1.5")
+	case "n":
+		sb.WriteString(v.S)
 	case "b":
 		if v.B {
 			sb.WriteString("true")
@@ -1128,7 +1131,7 @@ func genZSpan(r *rand.Rand, malformed bool, strict bool) JV {
 	}
 	r.Shuffle(len(fs), func(i, j int) { fs[i], fs[j] = fs[j], fs[i] })
 	if malformed {
-		switch r.Intn(9) {
+		switch r.Intn(12) {
 		case 0:
 			return genJunk(r, 1) // most likely not an object (when it is one, it is a span without ids: see below)
 		case 1:
@@ -1147,12 +1150,40 @@ func genZSpan(r *rand.Rand, malformed bool, strict bool) JV {
 			fs = append(fs, f("timestamp", js(pick(r, []string{"1_000", " 5", "0x10", "-", "99999999999999999999"}))))
 		case 8:
 			fs = append(fs, f("duration", JV{T: "i", I: "-9223372036854775809"}))
+		case 9: // integers far outside int64 (jx.Decoder.Int64 wraps around on some of them instead of reporting an overflow)
+			big := []string{"25000000000000000000", "18446744073709551617", "36893488147419103232", "-25000000000000000000",
+				strconv.FormatUint(2050000000000000000+uint64(r.Int63n(700000000000000000)), 10) + strconv.Itoa(r.Intn(10))}
+			fs = setField(fs, pick(r, []string{"timestamp", "duration"}), JV{T: "i", I: big[r.Intn(len(big))]})
+		case 10: // numbers that are not integer literals
+			fs = setField(fs, pick(r, []string{"timestamp", "duration"}), JV{T: "n", S: pick(r, []string{"1e3", "1E3", "5.0", "1.5e3", "12e-1", "-0.0", "1727700000000000.0"})})
+		case 11: // microseconds whose nanoseconds leave int64
+			fs = setField(fs, pick(r, []string{"timestamp", "duration"}), pick2(r, ji(9223372036854776), ji(-9223372036854776), js("9223372036854775807"), ji(1727700000000000000)))
 		}
 	}
 	return JV{T: "o", O: fs}
 }
 
 func pick2(r *rand.Rand, xs ...JV) JV { return xs[r.Intn(len(xs))] }
+
+// setField: the member k of the object gets the value v (every earlier occurrence is replaced: no repeated member name is introduced)
+func setField(fs []JKV, k string, v JV) []JKV {
+	out := []JKV{}
+	done := false
+	for _, kv := range fs {
+		if kv.K == k {
+			if !done {
+				out = append(out, f(k, v))
+				done = true
+			}
+			continue
+		}
+		out = append(out, kv)
+	}
+	if !done {
+		out = append(out, f(k, v))
+	}
+	return out
+}
 
 func hasIDs(v JV) bool {
 	if v.T != "o" {
